@@ -50,9 +50,12 @@ def choose_knots(rng, b, tol, count):
     added = {}
     uniq = sorted(set(x for x in b['knots'] if s <= x <= e))
     for _ in range(count):
-        kind = rng.choice(['new', 'new', 'existing', 'existing', 'outside', 'boundary'])
+        kind = rng.choice(['new', 'new', 'existing', 'existing', 'outside', 'boundary', 'near'])
         if kind == 'existing' and len(uniq) > 2:
             x = rng.choice(uniq[1:-1])
+        elif kind == 'near' and len(uniq) > 2:
+            # the literal 0.7 next to the computed knot 7*0.1: within the knot tolerance of an existing knot, not equal to it
+            x = rng.choice(uniq[1:-1]) + rng.choice([-1, -1, 1]) * Fr(1, 2 ** rng.choice([40, 36]))
         elif kind == 'boundary':
             x = rng.choice([s, e])
         elif kind == 'outside' and b['periodic'] >= 0:
@@ -149,6 +152,9 @@ def run(tier, seed, replay=None):
         except Exception as e:  # noqa
             err = type(e).__name__
             dist['errors'][err] = dist['errors'].get(err, 0) + 1
+        if err is None and not O.finite(o):
+            V.failure(dict(case, what='L2: knot insertion / refinement produced non-finite control points'))
+            continue
         post = O.snapshot(o) if err is None else None
         cases.append(dict(case=case, pre=pre, post=post, err=err, op=op, d=d, xs=xs, extra=extra, spec=spec))
     # ---- model runs: L1 post-state, L2 map before/after
